@@ -242,8 +242,20 @@ def run(tier, seed, replay=None):
     # pieces tile the period / domain and agree with the original to rounding
     ndec = 0
     if not replay:
-        for it in range(30 if tier == 'quick' else 400):
-            sp = O.gen_obj(rng, kinds=['periodic', 'periodic', 'open'], big_periodic=True, pardim=rng.choice([1, 1, 2]))
+        import gen_basis as G_
+        for it in range(150 if tier == 'quick' else 1500):
+            targeted = it % 3 == 2
+            if targeted:
+                # a closed curve of maximal continuity with many functions, split near its first and near its last knot span
+                p_ = rng.choice([3, 4, 5])
+                nb_ = rng.randint(2 * p_ - 1, 2 * p_ + 3)
+                brk = [Fr(i_) for i_ in range(nb_ + 1)]
+                kn_ = G_.periodic_knots(p_, brk, [1] * (nb_ - 1), p_ - 2)
+                bs_ = dict(order=p_, knots=kn_, periodic=p_ - 2, kind='periodic')
+                nf_ = O.nfun(bs_)
+                sp = dict(bases=[bs_], cps=[[Fr(rng.randint(-32, 32), 4), Fr(rng.randint(-32, 32), 4)] for _ in range(nf_)], dim=2, rational=False, intcps=False, ctor='raw')
+            else:
+                sp = O.gen_obj(rng, kinds=['periodic', 'periodic', 'open'], big_periodic=True, pardim=rng.choice([1, 1, 2]))
             if any(b['periodic'] >= 0 and O.nfun(b) < b['order'] + b['periodic'] for b in sp['bases']):
                 continue
             o = O.make_impl(sp)
@@ -257,6 +269,10 @@ def run(tier, seed, replay=None):
             per = o.periodic(dd)
             npts = rng.choice([1, 2, 3])
             fr_ = sorted(rng.sample([0.07, 0.13, 0.31, 0.35, 0.47, 0.59, 0.7, 0.83, 0.91], npts))
+            if targeted:
+                nsp_ = len(sp['bases'][0]['knots']) - 2 * sp['bases'][0]['order'] + 1   # knot spans in one period
+                fr_ = [rng.uniform(0.05, 0.95) / nsp_] + ([rng.uniform(0.2, 0.8)] if rng.random() < 0.5 else []) + [1 - rng.uniform(0.05, 0.95) / nsp_]
+                npts = len(fr_)
             # what a user would type: a few decimals (0.4, -0.3, 1.389, ...)
             pts = [round(o.start(dd) + f_ * width, 3) for f_ in fr_]
             case = dict(op='split_decimal', direction=dd, obj=O.spec_json(O.snapshot(o)), points=pts)
